@@ -133,7 +133,7 @@ func init() {
 			return nil, true
 		},
 		"vFreeze": func(in *Interp, st *State, fn *ssa.Function, args []Value, instr ssa.Instruction) (Value, bool) {
-			for o := range st.heap {
+			for _, o := range st.heap.keys() {
 				o.pre = true
 			}
 			for _, o := range in.globals {
